@@ -120,7 +120,7 @@ func Catalogue() []tf.Script {
 			fund(1, 9), route(1, creator(1), "open", 1), activate(1), endBlock(1), endBlock(2)}),
 		// 7. the route switched between two channels of the same port while packets are in flight: per-channel sequence numbers
 		script(M{"minA": 1, "minB": 2, "base": 1, "fps": 2, "initBal": 6}, []M{setFeed("s1", 100), setFeed("s2", 100)},
-			ready(1, acct(2), 1, both, swappedDevs(swapped), 30),
+			ready(1, acct(2), 1, both, swapped, 30),
 			[]M{chanInit(1, "UNORDERED", "tunnel-1"), chanOpen(1, 2), endBlock(1), endBlock(1), route(1, creator(1), "open", 2), endBlock(1),
 				trigger(1, creator(1)), route(1, creator(1), "open", 1), endBlock(1), {"e": "AckPkt", "i": 3}, brk(1, 1, "closed"),
 				endBlock(1), route(1, creator(1), "open", 1), endBlock(1), endBlock(1)}),
@@ -134,8 +134,6 @@ func Catalogue() []tf.Script {
 				{"e": "Deactivate", "t": 1, "who": creator(1)}, endBlock(5), activate(1), endBlock(1), {"e": "TimeoutPkt", "i": 1}, endBlock(1)}),
 	}
 }
-
-func swappedDevs(m map[string][2]int) map[string][2]int { return m }
 
 // DefectScripts (opt-in entry X05D): the inputs on which the unchanged tree and the property text differ.
 func DefectScripts() []tf.Script {
@@ -285,6 +283,8 @@ func RandomScript(rng *rand.Rand, defects bool) tf.Script {
 			steps = append(steps, M{"e": "TimeoutPkt", "i": 1 + rng.Intn(4)})
 		case x < 80:
 			steps = append(steps, M{"e": "Withdraw", "t": t, "who": randWho(rng, t, 90), "amt": M{"ua": pick(rng, []int{0, 1}), "ub": pick(rng, []int{0, 1, 2})}})
+		case x < 82:
+			steps = append(steps, M{"e": "Deposit", "t": t, "who": randWho(rng, t, 70), "amt": M{"ua": pick(rng, []int{0, 1}), "ub": pick(rng, []int{0, 1, 2})}})
 		default:
 			steps = append(steps, endBlock(pick(rng, []int{1, 1, 1, 2, 3, 0})))
 		}
